@@ -206,6 +206,33 @@ theorem round_up_correct {w : Nat} (sg : Bool) (n k : BitVec w) (hn : NonNeg sg 
     (hrep : q * k.toNat < 2 ^ promW w) : (roundUp sg n k).toNat = q * k.toNat :=
   roundUp_eq sg n k hn hk hk0 q hq hrep
 
+/-- **div_ceil / round_up with arguments of different types** (`div_ceil<N,K>`, `round_up<N,K>`):
+    computed in `decltype(n + k)` — the usual arithmetic conversions, `commW`/`commSg` — the results
+    are `⌈n/k⌉` and the least multiple of `k` that is `≥ n` (when representable in that type), for
+    every pair of argument types and every `n ≥ 0`, `k > 0` -/
+theorem div_ceil_mixed_correct {wn wk : Nat} (sn : Bool) (n : BitVec wn) (sk : Bool) (k : BitVec wk)
+    (hn : NonNeg sn n) (hk : NonNeg sk k) (hk0 : k.toNat ≠ 0) :
+    IsCeilDiv (divCeilMixed sn n sk k).toNat n.toNat k.toNat ∧
+    NonNeg (commSg wn sn wk sk) (divCeilMixed sn n sk k) := divCeilMixed_eq sn n sk k hn hk hk0
+
+theorem round_up_mixed_correct {wn wk : Nat} (sn : Bool) (n : BitVec wn) (sk : Bool) (k : BitVec wk)
+    (hn : NonNeg sn n) (hk : NonNeg sk k) (hk0 : k.toNat ≠ 0) (q : Nat)
+    (hq : IsCeilDiv q n.toNat k.toNat) (hrep : q * k.toNat < 2 ^ commW wn wk) :
+    (roundUpMixed sn n sk k).toNat = q * k.toNat := roundUpMixed_eq sn n sk k hn hk hk0 q hq hrep
+
+/-- the return type `decltype(n + k)` for all 64 pairs of the eight integer types, as the compiler
+    determines it (the harness prints it; this is the model's table): width 64 iff one operand is
+    64 bit wide; signed iff no operand of the result's width is unsigned -/
+theorem comm_type_table :
+    ∀ wn ∈ [8, 16, 32, 64], ∀ wk ∈ [8, 16, 32, 64], ∀ sn sk : Bool,
+      commW wn wk = (if wn = 64 ∨ wk = 64 then 64 else 32) ∧
+      commSg wn sn wk sk = !((wn = commW wn wk && !sn) || (wk = commW wn wk && !sk)) := by decide
+
+/-- witness for a width bug in a mixed call: `round_up(uint64_t(2^32 + 1), uint32_t(4096))` is
+    `2^32 + 4096` (a mask `~(k-1)` computed in 32 bits would give 4096) -/
+example : (roundUpMixed false (BitVec.ofNat 64 (2 ^ 32 + 1)) false (4096#32)).toNat = 2 ^ 32 + 4096 := by
+  decide
+
 /-- **abs_diff** = `|a − b|` (unsigned: always; signed: whenever representable) -/
 theorem abs_diff_correct {w : Nat} (a b : BitVec w) :
     (absDiff false a b).toNat = (if b.toNat < a.toNat then a.toNat - b.toNat else b.toNat - a.toNat) ∧
